@@ -1,0 +1,41 @@
+//! Scheduling points for the verification harness in /verif (cargo feature `verif`).
+//! They do nothing unless a hook has been installed by a harness binary.
+
+use std::sync::OnceLock;
+
+/// kind: 0 = plain point (about to touch shared memory), 1 = about to take lock `id`,
+/// 2 = lock `id` released.
+pub type Hook = fn(u8, &'static str);
+
+static HOOK: OnceLock<Hook> = OnceLock::new();
+
+pub fn set_hook(hook: Hook) {
+    let _ = HOOK.set(hook);
+}
+
+#[inline]
+pub fn point(id: &'static str) {
+    if let Some(hook) = HOOK.get() {
+        hook(0, id);
+    }
+}
+
+/// Declared right before a lock guard so that it is dropped right after it.
+pub struct LockScope(&'static str);
+
+impl LockScope {
+    pub fn new(id: &'static str) -> Self {
+        if let Some(hook) = HOOK.get() {
+            hook(1, id);
+        }
+        Self(id)
+    }
+}
+
+impl Drop for LockScope {
+    fn drop(&mut self) {
+        if let Some(hook) = HOOK.get() {
+            hook(2, self.0);
+        }
+    }
+}
